@@ -3,7 +3,6 @@ package dataframe
 import (
 	"fmt"
 	"sort"
-	"strings"
 )
 
 // Data Cleaning
@@ -137,7 +136,7 @@ func (df *DataFrame) DropDuplicates(options ...DropDuplicatesOption) (*DataFrame
 	}
 
 	// find which indexes in a column to keep (which rows to keep), prob create another helper function to do this
-	seen := make(map[string]bool)
+	seen := make(map[any]bool)
 	indexesToKeep := []int{}
 
 	switch finalOptions.Keep {
@@ -172,7 +171,7 @@ func (df *DataFrame) DropDuplicates(options ...DropDuplicatesOption) (*DataFrame
 		// logic for finalOptions.keep = "none"
 
 		// count all the times a specific row has occured before
-		counts := make(map[string]int)
+		counts := make(map[any]int)
 		for i := 0; i < df.Nrows(); i++ {
 			key, err := df.getRowKey(i, colNames)
 			if err != nil {
@@ -224,32 +223,29 @@ func (df *DataFrame) DropDuplicates(options ...DropDuplicatesOption) (*DataFrame
 	// return the DataFrame
 }
 
-// getRowKey is a helper function to return a unique key for a row
-func (df *DataFrame) getRowKey(rowIndex int, colNames []string) (string, error) {
+// rowKey is the comparable identity of a row: the compared cells themselves,
+// chained cell by cell, so that two rows have equal keys exactly when every
+// compared cell is equal (same type and value). No text rendering is involved,
+// therefore no characters inside a value can make different rows look alike.
+type rowKey struct {
+	value any
+	rest  any
+}
 
-	var builder strings.Builder
+// getRowKey is a helper function to return a unique key for a row
+func (df *DataFrame) getRowKey(rowIndex int, colNames []string) (any, error) {
+
+	var key any
 
 	for _, name := range colNames {
 		col, ok := df.Columns[name]
 		if !ok {
-			return "", fmt.Errorf("Column %s not found", name)
+			return nil, fmt.Errorf("Column %s not found", name)
 		}
-		value := col.Data[rowIndex]
-
-		// add the col name to prevent similar values but different column cases
-		builder.WriteString(name)
-		builder.WriteString(":")
-
-		if value == nil {
-			builder.WriteString("nil")
-		} else {
-			builder.WriteString(fmt.Sprintf("%v", value))
-		}
-
-		builder.WriteString("|")
+		key = rowKey{value: col.Data[rowIndex], rest: key}
 	}
 
-	return builder.String(), nil
+	return key, nil
 }
 
 // getSubSlice is a method get a portion of an existing column and returns a slice
